@@ -16,7 +16,8 @@
               the least solution computed by Kleene iteration over the reachable locations — must be the answer
     `lfp …`   the same with a small step budget: the answer must be that map or err:maxsteps
     `sound`   force = 0 and a lawful cmp: the model's answer is an error or satisfies the equations on exactly
-              the reachable locations (runtime re-check of theorem fp_ok_solution); `unsound` otherwise
+              the reachable locations (runtime re-check of theorem fp_ok_solution); `unsound` otherwise;
+              `falcon-unsound` when FALCON's own `ok` answer (second input field) does not satisfy them
     `-`       no second opinion (force with a non-monotone analysis, unlawful cmp)
 -/
 import FalconModel.DriverLoop
@@ -176,10 +177,27 @@ def lawfulMono (r : Req) : Bool :=
    | _, _ => false) &&
   tableMono r.cmp r.k r.dflt && r.ats.all (fun a => tableMono r.cmp r.k a.2)
 
+/-- the same re-check on what FALCON answered (the property: an error, never an unsound answer): an `ok` answer must
+    give a state to exactly the reachable locations and satisfy the data-flow equations at every one of them.
+    The answer is matched against the reachable locations through their printed names, so nothing is parsed back. -/
+def falconSound {L : Type} [DecidableEq L] (P : FPParams L Nat) (keys : List L) (str : L → String)
+    (falcon : String) : String :=
+  match falcon.splitOn " " with
+  | "ok" :: entries =>
+    let kvs : List (String × Nat) := entries.filterMap fun e =>
+      match e.splitOn "=" with
+      | [k, v] => v.toNat?.map (fun n => (k, n))
+      | _ => none
+    if kvs.length != entries.length then "sound" else
+    let st : List (L × Nat) := keys.filterMap fun l => (kvs.find? (·.1 == str l)).map (fun kv => (l, kv.2))
+    if st.length == keys.length && kvs.length == keys.length && keys.all (eqnB P st) then "sound"
+    else "falcon-unsound"
+  | _ => "sound"
+
 /-- the second opinion for one solver instance -/
 def specFor {L : Type} [DecidableEq L] (r : Req) (P : FPParams L Nat) (root : L)
     (key : L → Nat × Nat × Nat × Nat) (str : L → String) (model : FPOut L Nat) (bigBudget : Bool)
-    (closureFuel : Nat) : String :=
+    (closureFuel : Nat) (falcon : String) : String :=
   match closure P.succL closureFuel [root] [] with
   | none => "fuel"
   | some keys =>
@@ -194,12 +212,16 @@ def specFor {L : Type} [DecidableEq L] (r : Req) (P : FPParams L Nat) (root : L)
       | .ok st =>
         let ks := st.map (·.1)
         if keys.all (fun l => ks.contains l) && ks.all (fun l => keys.contains l) && ks.all (eqnB P st)
-        then "sound" else "unsound"
-      | _ => "sound"
+        then falconSound P keys str falcon else "unsound"
+      | _ => falconSound P keys str falcon
     else "-"
 
-def handle (line : String) : String :=
+def handle (line0 : String) : String :=
   let bad := "bad-request\t-"
+  -- input: `request TAB falcon's answer` (DRIVER_TAKES_ANSWER); the answer is only used by `falconSound`
+  let (line, falcon) := match line0.splitOn "\t" with
+    | [r, a] => (r, a)
+    | _ => (line0, "")
   match Sx.parseAll line >>= req? with
   | none => bad
   | some r =>
@@ -210,14 +232,14 @@ def handle (line : String) : String :=
       let model := fixedPointForward f A r.force r.max
       let m := outStr olocKey olocStr olocStr model
       let s := match f.cfg.entry.bind f.cfg.block with
-        | some b => specFor r (fwdParams f A) b.firstLoc.toOwned olocKey olocStr model (r.max ≥ 10000) cfuel
+        | some b => specFor r (fwdParams f A) b.firstLoc.toOwned olocKey olocStr model (r.max ≥ 10000) cfuel falcon
         | none => "-"
       m ++ "\t" ++ (if wffB f then s else "?")
     else
       let model := fixedPointBackward f A r.force
       let m := outStr flocKey flocStr (fun l => olocStr l.toOwned) model
       let s := match f.cfg.exit.bind f.cfg.block with
-        | some b => specFor r (bwdParams f A) b.lastLoc flocKey flocStr model true cfuel
+        | some b => specFor r (bwdParams f A) b.lastLoc flocKey flocStr model true cfuel falcon
         | none => "-"
       m ++ "\t" ++ (if wffB f then s else "?")
 
